@@ -4,6 +4,10 @@ use std::env;
 
 mod cpulist_h;
 mod procselect_h;
+// ---- C11 parts B/C and C10 (hook H4)
+mod inventory_h;
+mod masks_h;
+mod pinning_h;
 
 fn main() {
     vrt::quiet_panics();
@@ -14,6 +18,13 @@ fn main() {
         Some("cpulist-random") => cpulist_h::random(&args[2], args[3].parse().unwrap(), args[4].parse().unwrap()),
         Some("procselect") => procselect_h::cases(&args[2], &args[3], args[4].parse().unwrap()),
         Some("procselect-random") => procselect_h::random(&args[2], args[3].parse().unwrap()),
+        Some("masks") => masks_h::cases(&args[2], &args[3]),
+        Some("masks-random") => masks_h::random(&args[2], args[3].parse().unwrap()),
+        Some("pin-histories") => pinning_h::histories(&args[2], &args[3], &args[4]),
+        Some("pin-subsets") => pinning_h::subsets(&args[2], &args[3], args[4].parse().unwrap(), args[5].parse().unwrap()),
+        Some("inventory") => inventory_h::cases(&args[2], &args[3]),
+        Some("inventory-random") => inventory_h::random(&args[2], args[3].parse().unwrap()),
+        Some("inventory-show") => inventory_h::show(&args[2]),
         _ => {
             eprintln!("usage: h_cpus <cpulist-emit|cpulist-parse|cpulist-random> ...");
             std::process::exit(2);
